@@ -399,3 +399,39 @@ def proof_step(ctx, thorough_coqchk=None):
             ctx.violation('coqchk-failed', {'log': txt[-2000:],
                           'theorem_or_correspondence': 'coqchk XD.Props.%s' % pid}, found_input=False)
     return res
+
+
+# ----------------------------------------------------------------------------
+# exhaustive step-level comparison: model function vs implementation function
+# over all strings of length <= maxlen over alpha (digest first, locate on mismatch)
+# ----------------------------------------------------------------------------
+def exhaustive_step(ctx, name, model_fn, impl_fn, alpha, maxlen, extra_args=(), nontrivial=None):
+    """model_fn: protocol function taking (extra..., s); impl_fn: python callable on s.
+    Returns list of (s, model, impl) disagreements (at most 3)."""
+    strs = list(iter_strings(alpha, maxlen))
+    call = [Sym(model_fn)] + list(extra_args) + [Sym('_')]
+    digest = model_call('forall_str', alpha, maxlen, Sym('digest'), call)
+    mine = []
+    nt = 0
+    for s in strs:
+        r = impl_fn(s)
+        if nontrivial is not None:
+            nt += 1 if nontrivial(s, r) else 0
+        elif r != s:
+            nt += 1
+        mine.append(sx_enc(r))
+    ctx.evaluations += len(strs)
+    ctx.nontrivial += nt
+    ctx.count('step:%s:strings' % name, len(strs))
+    ctx.count('step:%s:changed' % name, nt)
+    out = []
+    if md5_join(mine) != str(digest):
+        for i in range(0, len(strs), 5000):
+            chunk = strs[i:i + 5000]
+            ans = model_batch([(model_fn,) + tuple(extra_args) + (s,) for s in chunk])
+            for s, a, m in zip(chunk, ans, mine[i:i + 5000]):
+                if sx_enc(a) != m:
+                    out.append((s, a, sx_dec(m)))
+                    if len(out) >= 3:
+                        return out
+    return out
